@@ -56,6 +56,10 @@ class SourceFailure(Exception):
     pass
 
 
+class SourceMisuse(Exception):
+    """The library asked the source for something other than k uniformly distributed bits."""
+
+
 class ScriptedRandom(random.Random):
     """A `random.Random` whose `getrandbits` is scripted."""
 
@@ -76,10 +80,9 @@ class ScriptedGenerator:
     def integers(self, low, high=None, **kw):
         if high is None:
             low, high = 0, low
-        assert low == 0
         k = (int(high) - 1).bit_length() if high > 1 else 0
-        if (1 << k) != int(high):
-            raise AssertionError(f'integers() range is not a power of two: {high}')
+        if int(low) != 0 or (1 << k) != int(high) or kw.get('endpoint'):
+            raise SourceMisuse(f'integers({low}, {high}, {kw}) is not "k uniform bits": the half-open range [0, 2^k) is')
         return self._log.next(k)
 
 
@@ -543,6 +546,8 @@ def _observe(thunk):
         y = thunk()
     except SourceFailure:
         return {'exc': 'SourceFailure'}
+    except SourceMisuse as e:
+        return {'exc': 'SourceMisuse', 'msg': str(e)[:120]}
     except (OverflowError, ValueError) as e:
         return {'exc': type(e).__name__, 'msg': str(e)[:80]}
     if not isinstance(y, Float):
@@ -737,6 +742,9 @@ def run_case(case: dict) -> dict:
 
     # first call: learn how many bits are requested
     ob0, calls0 = _call(log, rng_obj, thunk, [0])
+    if ob0.get('exc') == 'SourceMisuse':
+        vio('source-misused', {'got': ob0})
+        return done()
     if ob0.get('exc') == 'ValueError' and k is None and enc in ('frac', 'op'):
         return skip('k=None needs exact arithmetic for this operand')
     if len(calls0) != 1:
